@@ -67,6 +67,51 @@ func (s *State) Hyps() []*Term {
 	return h
 }
 
+// resolvePtr turns an unresolved pointer merge (c ? &A : &B) into a pointer to a
+// fresh object holding the merged contents. The original objects are left
+// untouched: writes through the merged pointer are not seen through older
+// aliases of A or B (restriction of the executor, noted in the evidence).
+func (s *State) resolvePtr(p *PtrV, alloc func(Value) int) *PtrV {
+	if p.Alt == nil {
+		return p
+	}
+	a := s.resolvePtr(p.Alt.a, alloc)
+	b := s.resolvePtr(p.Alt.b, alloc)
+	var va, vb Value
+	if a.Obj >= 0 {
+		va = s.heap[a.Obj]
+	}
+	if b.Obj >= 0 {
+		vb = s.heap[b.Obj]
+	}
+	id := alloc(mergeValue(p.Alt.c, va, vb))
+	return &PtrV{Nil: p.Nil, Obj: id}
+}
+
+func (e *Engine) resolveValue(st *State, v Value) Value {
+	switch x := v.(type) {
+	case *PtrV:
+		if x.Alt != nil {
+			e.notes = appendUnique(e.notes, "a pointer assigned different objects on two branches is treated as pointing to a merged copy")
+			return st.resolvePtr(x, func(c Value) int { return e.allocObj(st, c) })
+		}
+	case *StructV:
+		changed := false
+		n := &StructV{Names: x.Names, F: map[string]Value{}}
+		for k, f := range x.F {
+			r := e.resolveValue(st, f)
+			if r != f {
+				changed = true
+			}
+			n.F[k] = r
+		}
+		if changed {
+			return n
+		}
+	}
+	return v
+}
+
 // mergeStates merges the fall-through states a (taken when c) and b (otherwise),
 // both derived from base.
 func mergeStates(c *Term, a, b, base *State) *State {
@@ -234,6 +279,9 @@ func (e *Engine) freshNamed(st *State, nm string, t types.Type, depth int) Value
 	if isStringLike(t) {
 		return Var(nm, SStr)
 	}
+	if isErrorType(t) {
+		return Var(nm, SInt)
+	}
 	if tp, ok := t.(*types.TypeParam); ok {
 		_ = tp
 		return e.freshIface(st, nm)
@@ -252,6 +300,11 @@ func (e *Engine) freshNamed(st *State, nm string, t types.Type, depth int) Value
 		}
 		return Var(nm, SInt) // floats etc: opaque
 	case *types.Struct:
+		if isNamed(t, "bufio", "Writer") {
+			sv := &StructV{Names: []string{"$target", "buf", "$err"}, F: map[string]Value{
+				"$target": e.freshIface(st, nm+".target"), "buf": Var(nm+".pending", SStr), "$err": Var(nm+".sticky", SInt)}}
+			return sv
+		}
 		if depth >= 2 && foreignStruct(t) {
 			return Var(nm+".opaque", SInt)
 		}
@@ -305,6 +358,11 @@ func foreignStruct(t types.Type) bool {
 	return true
 }
 
+func isNamed(t types.Type, pkg, name string) bool {
+	n, ok := t.(*types.Named)
+	return ok && n.Obj().Pkg() != nil && n.Obj().Pkg().Path() == pkg && n.Obj().Name() == name
+}
+
 func (e *Engine) freshIface(st *State, nm string) *IfaceV {
 	return &IfaceV{Tag: Var(nm+".tag", SInt), Id: Var(nm+".id", SInt), Payloads: map[string]Value{}}
 }
@@ -340,6 +398,9 @@ func (e *Engine) elemAt(fn string, t types.Type, i *Term, depth int) Value {
 		}
 		return sv
 	case *types.Interface:
+		if isErrorType(t) {
+			return App(fn, SInt, i)
+		}
 		return &IfaceV{Tag: App(fn+".tag", SInt, i), Id: App(fn+".id", SInt, i), Payloads: map[string]Value{}}
 	case *types.Slice:
 		if depth > 4 {
